@@ -6,40 +6,48 @@ From Gots Require Import Base.Prelude Model.Pts Model.Scte Model.ScteEnc Spec.Sc
 Import Scte ScteEnc Scte35Spec.
 Local Open Scope N_scope.
 
-(* ---- refuted clauses (faithful model of the code as it is; replayed on the real code by bin/check) ---- *)
-(* (a) a splice_time() without time is written 0x7E, reserved bit 0 cleared: a canonical component-mode section with an
-   untimed component is decoded correctly but NOT reproduced byte for byte *)
-Definition untimed_section : splice_info :=
+(* ---- the three clauses that were refuted on the code before ce48cf3 / 0cd2c00 / 0fcfd24, now as positive facts.
+   Each concrete value below is the replay line of a `fixed` entry in known_findings.json. ---- *)
+(* (a) a component-mode, timed splice_insert with an UNTIMED component is canonical, hence (C09_encode_decode_canonical)
+   decoded and reproduced byte for byte: splice_time() without time is 0x7F on both sides *)
+Definition untimed0 : splice_info :=
   mksi [] 252 false false 3 0 false 0 0 0 4095 false
        (Insert 1 (Some (mkib false (CompTimed [(7, None)]) None 0 0 0))) [] [] 0.
-Lemma w_untimed_refuted : exists s sc, supported s /\ new_scte35 (ser_splice_info s) = Ok sc /\
-  firstn 23 (fst (update_data sc)) <> firstn 23 (ser_section s).
+Definition untimed_crc : N := Eval vm_compute in crc_reg (ser_section_nocrc untimed0).
+Definition untimed_section : splice_info := with_crc untimed0 untimed_crc.
+Ltac canon_tac :=
+  unfold canonical; split;
+  [ unfold supported, wf_decode; cbn; repeat (split || constructor); cbn; try lia; try discriminate; auto
+  | repeat split; try reflexivity; try (cbn; lia);
+    exists []; eexists; split; [reflexivity|]; split; repeat constructor ].
+Lemma w_untimed_canonical : canonical untimed_section /\
+  fst (update_data (expected untimed_section)) = ser_section untimed_section /\
+  nth 22 (ser_section untimed_section) 0 = 127.
 Proof.
-  exists untimed_section, (expected untimed_section).
-  assert (H : supported untimed_section).
-  { unfold supported, wf_decode, untimed_section. cbn. repeat (split || constructor); cbn; try lia; try discriminate; auto. }
-  split; [exact H|]. split; [apply decode_ser; exact H|]. vm_compute. intros C. discriminate C.
+  assert (H : canonical untimed_section) by canon_tac.
+  split; [exact H|]. split; [apply (encode_decode_canonical _ H)|reflexivity].
 Qed.
 
-(* (b) UPID.SetUPID through MID()[j] leaves the element's length stale: after it the next encoding is not decodable *)
-Definition stale_script : list sig_op :=
+(* (b) UPID.SetUPID through MID()[j] now updates the element's length: the getter shows the new bytes and decoding the next
+   encoding returns the struct itself *)
+Definition setupid_script : list sig_op :=
   [SSetDescriptors [[DSetUPIDType 13; DSetMID [(9, [1; 2])]]]; SDesc 0 (DMidSetUPID 0 [1; 2; 3; 4])].
-Lemma w_mid_setupid_refuted :
-  let st := run_script create_scte35 stale_script in
+Lemma w_mid_setupid_roundtrip :
+  let st := run_script create_scte35 setupid_script in
   map (fun u => u_upid u) (get_mid (nth 0 (s_descs st) (seg0 None))) = [[1; 2; 3; 4]] /\
-  new_scte35 (0 :: fst (update_data st)) = Err E.InvalidSCTE35Length.
+  new_scte35 (0 :: fst (update_data st)) = Ok (snd (update_data st)).
 Proof. vm_compute. split; reflexivity. Qed.
 
-(* (c) the decoder drops pts_adjustment of a splice_null, so such a section is not reproduced *)
-Definition null_adj_section : splice_info :=
+(* (c) a splice_null with a non-zero pts_adjustment is canonical: PTS() reports the adjustment and re-encoding keeps it *)
+Definition null_adj0 : splice_info :=
   mksi [] 252 false false 3 0 false 0 5 0 4095 false Null [] [] 0.
-Lemma w_null_adjustment_refuted : exists s sc, supported s /\ new_scte35 (ser_splice_info s) = Ok sc /\
-  firstn 16 (fst (update_data sc)) <> firstn 16 (ser_section s).
+Definition null_adj_crc : N := Eval vm_compute in crc_reg (ser_section_nocrc null_adj0).
+Definition null_adj_section : splice_info := with_crc null_adj0 null_adj_crc.
+Lemma w_null_adjustment_kept : canonical null_adj_section /\
+  fst (update_data (expected null_adj_section)) = ser_section null_adj_section /\ s_pts (expected null_adj_section) = 5.
 Proof.
-  exists null_adj_section, (expected null_adj_section).
-  assert (H : supported null_adj_section).
-  { unfold supported, wf_decode, null_adj_section. cbn. repeat (split || constructor); cbn; try lia; try discriminate; auto. }
-  split; [exact H|]. split; [apply decode_ser; exact H|]. vm_compute. intros C. discriminate C.
+  assert (H : canonical null_adj_section) by canon_tac.
+  split; [exact H|]. split; [apply (encode_decode_canonical _ H)|reflexivity].
 Qed.
 
 (* ---- non-vacuity of `canonical`: component-mode timed splice_insert with break, a foreign descriptor, a descriptor
@@ -58,9 +66,7 @@ Proof.
   unfold canonical. split.
   { unfold supported, wf_decode, ex_canon, ex_canon0. cbn. repeat (split || constructor); cbn; try lia; try discriminate; auto. }
   repeat split; try reflexivity; try (cbn; lia).
-  - exists [Foreign 1 [67; 85; 69; 73; 0]]. eexists. split; [reflexivity|]. split; repeat constructor.
-  - cbn. repeat constructor; discriminate.
-  - discriminate.
+  exists [Foreign 1 [67; 85; 69; 73; 0]]. eexists. split; [reflexivity|]. split; repeat constructor.
 Qed.
 
 (* ---- non-vacuity: a history from CreateSCTE35 reaching a normal, decodable state with a timed splice_insert with
@@ -95,7 +101,6 @@ Proof.
   unfold clean, ex_state. cbn [s_id s_stuffing s_cmd s_descs s_pts].
   split; [reflexivity|]. split; [reflexivity|]. split.
   { unfold clean_cmd, clean_insert. cbn. repeat split; intros; try discriminate; reflexivity. }
-  split; [|intros; discriminate].
   constructor; [|constructor; [|constructor]]; unfold clean_desc; cbn; repeat split; intros; try discriminate; try reflexivity; auto.
 Qed.
 
@@ -114,8 +119,7 @@ Proof.
   { unfold canonical. split.
     { unfold supported, wf_decode, ex_api, ex_api0. cbn. repeat (split || constructor); cbn; try lia; try discriminate; auto. }
     repeat split; try reflexivity; try (cbn; lia).
-    - exists []. eexists. split; [reflexivity|]. split; repeat constructor.
-    - discriminate. }
+    exists []. eexists. split; [reflexivity|]. split; repeat constructor. }
   repeat split; try reflexivity. repeat constructor.
 Qed.
 
